@@ -177,13 +177,22 @@ func dbOptions(o opSpec, dir string, fs vfs.FS) *NoKV.Options {
 	return opt
 }
 
+// settle waits until the flush queue is drained.  A flush that never finishes (the engine keeps
+// failing it) is reported on the line that triggered it and ends the child.
+var settleLine atomic.Int64
+
 func settle(db *NoKV.DB) {
 	idle := 0
+	deadline := time.Now().Add(6 * time.Second)
 	for idle < 3 {
 		if db.Info().Snapshot().Flush.Pending == 0 {
 			idle++
 		} else {
 			idle = 0
+		}
+		if time.Now().After(deadline) {
+			emit("x %d !flush-stuck", settleLine.Load())
+			os.Exit(4)
 		}
 		time.Sleep(200 * time.Microsecond)
 	}
@@ -206,6 +215,12 @@ func runChild(c *childCfg) {
 			break
 		}
 	}
+	hasMaint := false
+	for _, s := range specs {
+		if s.Kind == "maint" {
+			hasMaint = true
+		}
+	}
 	hs := &hookState{cfg: c, counters: map[string]int{}}
 	var fs vfs.FS = vfs.OSFS{}
 	if c.trace || c.killPath != "" {
@@ -220,6 +235,10 @@ func runChild(c *childCfg) {
 		}()
 		hs.curLine.Store(int64(line))
 		db = NoKV.Open(dbOptions(openSpec, c.dir, fs))
+		if hasMaint {
+			// explicit compaction steps only: the background workers are stopped (no API call in flight)
+			db.VerifLSM().VerifStopCompactors()
+		}
 		return "ok"
 	}
 	bad := malformedLines(specs)
@@ -231,6 +250,7 @@ func runChild(c *childCfg) {
 			fmt.Fprintf(os.Stderr, "t=%v before line %d %s\n", time.Since(t0), i, s.Kind)
 		}
 		hs.curLine.Store(int64(i))
+		settleLine.Store(int64(i))
 		if bad[i] {
 			emit("r %d malformed", i)
 			continue
@@ -306,6 +326,19 @@ func runChild(c *childCfg) {
 			}
 			emit("r %d open=ok %s", i, dump(db, specs))
 			settle(db)
+		case "maint":
+			if db == nil {
+				emit("r %d nodb", i)
+				continue
+			}
+			settle(db)
+			res, err := db.VerifLSM().VerifCompact(s.Path)
+			if err != nil {
+				emit("r %d err:%s", i, errClass(err.Error()))
+			} else {
+				emit("m %d %s %s", i, s.Path, res) // ok | nothing: tallied, not compared
+				emit("r %d done", i)
+			}
 		case "wait":
 			time.Sleep(time.Duration(s.K) * time.Millisecond)
 			emit("r %d ok", i)
